@@ -84,4 +84,18 @@ UnboundFrom(exprs, k, known) ==
 Unbound(exprs, inputs) == UnboundFrom(exprs, 1, {inputs[k] : k \in 1..Len(inputs)})
 
 Defined(exprs) == {exprs[k][1] : k \in 1..Len(exprs)}
+
+(***************************************************************************)
+(* Live(exprs, rets): the sub-list of definitions the symbols in `rets`     *)
+(* transitively depend on (backward slice; a definition of n serves the     *)
+(* uses of n that follow it).  Dead definitions cannot influence a return   *)
+(* value, so a stray symbol in one of them is reported separately.          *)
+(***************************************************************************)
+RECURSIVE LiveFrom(_, _, _, _)
+LiveFrom(exprs, k, needed, acc) ==
+  IF k = 0 THEN acc
+  ELSE IF exprs[k][1] \in needed
+       THEN LiveFrom(exprs, k - 1, (needed \ {exprs[k][1]}) \cup FreeSyms(exprs[k][2]), <<exprs[k]>> \o acc)
+       ELSE LiveFrom(exprs, k - 1, needed, acc)
+Live(exprs, rets) == LiveFrom(exprs, Len(exprs), rets, <<>>)
 =============================================================================
